@@ -92,7 +92,7 @@ func initC18() {
 			"simulated sockets follow the documented net contracts (deadline errors, ErrClosed on close-while-blocked, datagram truncation, UDP drop/dup/reorder, stream FIN/RST); kernel specifics (ICMP errors, SO_REUSEADDR) are not modelled",
 			"'promptly' is taken as: Stop/Close returns and every SUT goroutine has exited within 3 s (NBNS) / 2 s (LLMNR) of simulated time, measured from the call and judged only over time that passed with every task blocked (the pinned tree needs 0 s; a bounded drain of handlers fits; waiting out a 5 s or 30 s I/O timeout does not)",
 			"ill-formed NBNS datagrams (question count larger than the content, runts shorter than a header, requests cut inside the question) are injected only as a disturbance between well-formed requests; how the server treats them is not judged (decoder totality is C07), only that they leave nothing behind",
-			"seeded sampling of schedules, fault sequences and stop times; the 16-opcode routing table is enumerated exhaustively (3 transports x 16 opcodes x 2 record dialects); Stop/Close is additionally placed at every statement boundary (k = 0..899) of 6 systems with 1 or 2 requests in flight under the otherwise boring schedule (stopenum), and at k < 80 with the stopping task itself descheduled after j <= 14 of its own statements (stopenum2)",
+			"seeded sampling of schedules, fault sequences and stop times; the 16-opcode routing table is enumerated exhaustively (3 transports x 16 opcodes x 2 record dialects x request / response bit); Stop/Close is additionally placed at every statement boundary (k = 0..899) of 6 systems with 1 or 2 requests in flight under the otherwise boring schedule (stopenum), and at k < 80 with the stopping task itself descheduled after j <= 14 of its own statements (stopenum2)",
 		},
 		rule: "each run: one system (nbtns.Server | nbtns.UDPServer+TCPServer | llmnr.Server | llmnr.Client vs harness responders | llmnr.Client+Server | nbtns.NameChallenger) started through its real constructors on simulated hosts; " +
 			"1-6 concurrent clients x 1-5 requests with unique ids and names (UDP, pipelined TCP with aborts and slow readers, multicast), UDP drop/duplicate/delay/reorder, TCP segmentation, stalled tasks (time skips), preemption before every SUT statement, Stop/Close at a chosen time (also at time 0 and twice). " +
